@@ -20,7 +20,9 @@ func init() {
 			"each call under no fault or under one fault of the alphabet {JS throw / Go panic with a Value / with an *Exception / with a GoError / with a foreign Go value at the k-th log probe, " +
 			"Value panic at the k-th host native, call-depth limit L in 0..64} (thorough: also two faults in one call and two faulted calls per history); " +
 			"every log position k of the unfaulted execution and every L is enumerated for every shape x entry kind; " +
-			"a pair is non-trivial when the fault really fired inside the call (the probe threw / StackOverflowError was raised)",
+			"plus histories of top-level declaration scripts (every script of <= 2, thorough 3, var/let/const/class/function/property/preventExtensions items over two names x every probe position) " +
+			"searched to depth 2 (thorough: closure) over the states of the global environment, where the failing call is rejected by GlobalDeclarationInstantiation or aborted in its body; " +
+			"a pair is non-trivial when the fault really fired inside the call (the probe threw / StackOverflowError was raised / the script was rejected at instantiation)",
 		Run:    run,
 		Replay: replay,
 	})
@@ -47,8 +49,10 @@ func (c Call) String() string {
 // Case is what a replay file holds: a history executed on a brand-new runtime; every call is judged.
 type Case struct {
 	Part    string `json:"part"`
-	History []Call `json:"history"`
-	Detail  string `json:"detail,omitempty"`
+	History []Call `json:"history,omitempty"`
+	// Scripts: part "globals": a history of top-level declaration scripts on a brand-new light runtime
+	Scripts []GCall `json:"scripts,omitempty"`
+	Detail  string  `json:"detail,omitempty"`
 }
 
 type failure struct{ sig, what string }
@@ -84,7 +88,7 @@ func run(r *core.Run) {
 		f      func(*core.Run) bool
 		weight float64
 	}
-	parts := []part{{"regression", regression, 0}, {"single", single, 3}, {"histories", histories, 3}}
+	parts := []part{{"regression", regression, 0}, {"globals", globalsPart, 1}, {"single", single, 3}, {"histories", histories, 3}}
 	if r.Thorough() {
 		parts = append(parts, part{"pairs", pairs, 4})
 	}
@@ -120,6 +124,12 @@ func replay(r *core.Run, raw json.RawMessage) {
 	var c Case
 	if err := json.Unmarshal(raw, &c); err != nil {
 		r.Violation("replay|bad", err.Error(), nil)
+		return
+	}
+	if len(c.Scripts) > 0 {
+		for _, f := range gJudgeHistory(c.Scripts, r) {
+			r.Violation(f.sig, f.what, c)
+		}
 		return
 	}
 	if c.Part == "route" && len(c.History) == 1 && len(c.History[0].Faults) == 1 {
